@@ -6,20 +6,27 @@ import contracts.selection as SEL
 import contracts.chunk as CH
 import contracts.getiter as GI
 import contracts.standins_context as BX
+import contracts.standins_selection as BS
 
-PROVED = [SEL.apply_time_range, SEL.apply_selection_range, SEL.apply_selection_none, SEL.loader_range, CH.chunk_split, GI.get_iter]
+PROVED = [SEL.apply_time_range, SEL.apply_selection_range, SEL.apply_selection_none, SEL.loader_range, CH.chunk_split, GI.get_iter,
+          GI.estimate_run_start_and_end]
 
 PROPERTY = Property(
     "C10", "proof",
     contracts=PROVED,
     lemmas=[SEL.PRUNED],
-    standins=[StandIn("seconds_range -> absolute ns", BX.to_absolute_time_range, BX.to_absolute_time_range.harness)]
+    standins=[StandIn("seconds_range -> absolute ns", BX.to_absolute_time_range, BX.to_absolute_time_range.harness),
+              StandIn("apply_selection: row selections and kept / dropped columns", BS.apply_selection_full, BS.apply_selection_full.harness,
+                      budget={"quick": 700, "thorough": 6000}),
+              StandIn("get_array on stored data == the full result filtered and projected", BS.get_array_selection,
+                      BS.get_array_selection.harness, budget={"quick": 400, "thorough": 6000})]
     + [StandIn("replay-scope:" + c.qualname, c, c.harness, budget={"quick": 2500, "thorough": 150000})
               for c in PROVED if c.harness is not None],
     trusted=["pyvc VC generator and value model", "z3 5.1.0 / cvc5 1.4.0",
              "library model of numpy boolean-mask indexing (exactly the rows with a true mask, in order)"],
-    assumptions=["row selections (strings / callables, numexpr), column projections, seconds / time_within conversion and the "
-                 "composition through Context.get_iter and both processors are not part of this proof",
+    assumptions=["row selections (strings / callables, numexpr), column projections, the seconds / time_within conversion and the "
+                 "composition through both processors are not part of the proof: they are covered by the bounded stand-ins only "
+                 "(apply_selection with selections and columns; Context.get_array on stored data)",
                  "'nothing is saved by a partial request' is carried by C11's dominance obligations"],
     explanation="time-range selection commutes with chunking: apply_time_range keeps a contiguous run of rows and drops only rows "
                 "that neither selection mode would select; the loader's chunk pruning likewise; apply_selection keeps exactly the "
